@@ -36,18 +36,45 @@
                              that rotates the two free blocks back (`callS`, C04g `compS`); for ANY
                              assignment of flags the five routes succeed and are `Eqv` to the
                              unflagged `route1`.
-  Since `A, B, C, D` and the twelve lists are arbitrary, the theorems apply to every ordering of
-  four given tensors (e.g. to `A, C, B, D`: bracketings `(AC)(BD)`, `((AC)B)D`, …).
-  NOT proved: that the results for two different ORDERINGS of the four tensors agree up to the
-  block transposition of the result legs (e.g. `(AC)(BD)` against `(AB)(CD)`).  With S7, S5
-  (`tdotF_swap_eqv`) and congruence this reduces to ONE missing lemma: S6 (pre-transposition of an
-  operand, `tdotF_pretranspose_weak`, today address-wise) as an `Eqv` statement
-  `(X.transposeF p)·Y  Eqv  (X·Y).transposeF (q ++ id)` together with `Eqv`-congruence of
-  `transposeF`; then `(X·Y)·Z → X·(Y·Z) → X·(Z·Y)ᵗ → (X·Z)·Y` exchanges two neighbours.  Also not
-  proved: `n > 4` tensors with arbitrary graphs (the induction of C04f over bracketing trees with
-  multi-bond pieces), and `LabelRoutes` for more than two labels per tensor.
+  ORDERINGS (second part of the file).  `Net4`: four tensors `T 0 … T 3` and for every ordered pair
+  `(i, j)` the legs `b i j` of `T i` bonded to `T j`; `Net4.OK` the symmetric hypotheses.
+  `TEq T T'` ("`T'` is a fermionic transpose of `T`"): for some permutation `P` of the legs,
+  `T.transposeF P` is `Eqv` to `T'` (`teq_def`; `transposeF` multiplies every sector by the Koszul
+  sign of `P`, C01/C04b), hence `to_dense()`, labels and charge of `T.transposeF P` and `T'` agree
+  (`teq_dense`).
+    `tdotF_pretranspose_eqv`  S6 as an EQUIVALENCE under the weak guard:
+                              `(a.transposeF p)·b  Eqv  (a·b).transposeF (q ⊕ id)`;
+    `transposeF_congr_eqv`, `transposeF_comp_eqv`, `teq_of_eqv`, `teq_trans`
+                              `transposeF` respects `Eqv`, composes (`compose P Q`), `TEq` is
+                              reflexive on `Eqv` and transitive;
+    `exchange3`               EXCHANGE of two neighbours: for three pieces `X, Y, Z` (a bond between
+                              every pair) `((X·Z)·Y).transposeF (exchP …)  Eqv  (X·Y)·Z` with the
+                              explicit permutation `exchP` (`exchP_def`); from S5, S7, S6, S4;
+    `net4_all_orders`         for EVERY ordering `i, j, k, l` of the four tensors the left-nested
+                              contraction `((Tᵢ·Tⱼ)·Tₖ)·Tₗ` succeeds and is a fermionic transpose of
+                              `((T₀·T₁)·T₂)·T₃`;
+    `net4_every_route`        ANY ordering (24) × ANY of the five bracketings × ANY assignment of
+                              operand-order flags: the result is a fermionic transpose of the
+                              reference `((T₀·T₁)·T₂)·T₃` — in particular the three pairings
+                              `(AB)(CD)`, `(AC)(BD)`, `(AD)(BC)` and the twelve sequential orders;
+    `net4_every_route_ref`, `net4_routes_agree`   the same with validity, and the symmetric form: the
+                              results `U`, `U'` of ANY two routes, each brought to the reference leg
+                              order by a fermionic transpose, are `Eqv` — same `to_dense()`,
+                              labels, charge, index tables (this is the comparison the harness makes).
+  The 24 orderings are connected by three moves (Proofs/Net4Moves): exchange of the last two
+  tensors, exchange of the two halves of `(AB)(CD)`, and `(A(BC))D ↔ (AD)(BC)`; the last one
+  needs that the legs of `A·B·C` bonded to `D` have the same positions in the layouts of `(A·B)·C`
+  and `A·(B·C)` (`Net4P.axes_star`).
+  NOT proved: in `net4_all_orders/net4_every_route` the permutation `P` is existentially
+  quantified (it is the composite of the explicit permutations of the moves; it satisfies
+  `permuted T.indices P = T0.indices`, which determines it when the open legs have different
+  tables; for a fully contracted network it is `[]`) — a closed formula for `P` as the block
+  permutation of the ordering is not proved.  Also not proved: `n > 4` tensors with arbitrary
+  graphs (the induction of C04f over bracketing trees with multi-bond pieces), the fused/auto
+  mode versions of the theorems of this file (C06d/e do this for chains), and `LabelRoutes` for
+  more than two labels per tensor.
 -/
-import SymmModel.Proofs.Net4Flag
+import SymmModel.Proofs.Net4Orders
 import SymmModel.Props.C04g
 
 namespace SymmModel.C04
@@ -412,6 +439,298 @@ example :
         elemOf t [(0,0),(0,0)] [0,0])))
       = List.replicate 10 ([(5, true), (1, false), (3, false), (7, false)], 2, 1,
           some (-140)) := by
+  decide +kernel
+
+/-! ## orderings: equality up to a fermionic transpose -/
+
+theorem teq_def [AddCommMonoid R] [Neg R] (T T' : Arr R) :
+    TEq T T' ↔ ∃ P, Arr.isPerm P T.ndim = true ∧ Eqv (T.transposeF P) T' := Iff.rfl
+
+/-- what `TEq` means at `to_dense()` level -/
+theorem teq_dense [AddCommMonoid R] [Mul R] [Neg R] [SignRing R] {T T' : Arr R} (h : TEq T T')
+    (hv : T.validB = true) (hf : T.fermi = true) :
+    ∃ P, Arr.isPerm P T.ndim = true ∧ (T.transposeF P).toDenseF = T'.toDenseF
+      ∧ T'.oddpos = T.oddpos ∧ T'.charge = T.charge ∧ T'.indices = permuted T.indices P := by
+  obtain ⟨P, hP, e⟩ := h
+  have TT := transOf_transposeF T P hv hf hP
+  exact ⟨P, hP, e.toDenseF (transposeF_validB T P hv hf hP), e.oddpos.symm, e.charge.symm,
+    by rw [← e.indices, TT.indices]⟩
+
+theorem teq_of_eqv [AddCommMonoid R] [Mul R] [Neg R] [SignRing R] {T T' : Arr R} (h : Eqv T T')
+    (hv : T.validB = true) (hf : T.fermi = true) : TEq T T' := TEq.of_eqv h hv hf
+
+theorem teq_trans [AddCommMonoid R] [Mul R] [Neg R] [SignRing R] {T1 T2 T3 : Arr R}
+    (h12 : TEq T1 T2) (h23 : TEq T2 T3) (hv1 : T1.validB = true) (hf1 : T1.fermi = true)
+    (hv2 : T2.validB = true) : TEq T1 T3 := TEq.trans h12 h23 hv1 hf1 hv2
+
+/-- `transposeF` respects `Eqv` -/
+theorem transposeF_congr_eqv [AddCommMonoid R] [Mul R] [Neg R] [SignRing R] {X X' : Arr R}
+    {P : List Nat} (h : Eqv X X') (hv : X.validB = true) (hv' : X'.validB = true)
+    (hf : X.fermi = true) (hP : Arr.isPerm P X.ndim = true) :
+    Eqv (X.transposeF P) (X'.transposeF P) := transposeF_congr h hv hv' hf hP
+
+/-- transposing by `P` and then by `Q` is transposing by `compose P Q` -/
+theorem transposeF_comp_eqv [AddCommMonoid R] [Mul R] [Neg R] [SignRing R] (X : Arr R)
+    (P Q : List Nat) (hv : X.validB = true) (hf : X.fermi = true)
+    (hP : Arr.isPerm P X.ndim = true) (hQ : Arr.isPerm Q X.ndim = true) :
+    Eqv (X.transposeF (KoszulP.compose P Q)) ((X.transposeF P).transposeF Q) :=
+  transposeF_comp X P Q hv hf hP hQ
+
+theorem blockP_def (q : List Nat) (nL nR : Nat) :
+    blockP q nL nR = q ++ (List.range nR).map (nL + ·) := rfl
+
+/-- **S6 as an equivalence** (weak guard, distinct labels): pre-transposing the left operand by
+    `p` is transposing the free legs of the result by the induced `q` (`PreT`, C04b) -/
+theorem tdotF_pretranspose_eqv [AddCommMonoid R] [Mul R] [Neg R] [SignRing R] [AssocLaws R]
+    (a b c : Arr R) (p xa xa' q xb : List Nat)
+    (ha : a.validB = true) (hb : b.validB = true) (hfa : a.fermi = true) (hfb : b.fermi = true)
+    (hadm : tdotAdmissibleCommonB a b xa xb = true) (hp : Arr.isPerm p a.ndim = true)
+    (hT : PreT a.ndim p xa xa' q)
+    (hd : (a.oddpos ++ b.oddpos).Pairwise (fun x y => x.1 ≠ y.1))
+    (hc : tdF a b xa xb = .ok c) :
+    ∃ c', tdF (a.transposeF p) b xa' xb = .ok c' ∧ c'.validB = true ∧ c.validB = true
+      ∧ Arr.isPerm (blockP q (freeAxes a.ndim xa).length (freeAxes b.ndim xb).length) c.ndim = true
+      ∧ Eqv (c.transposeF (blockP q (freeAxes a.ndim xa).length (freeAxes b.ndim xb).length)) c' :=
+  pre_eqv a b p xa xa' q xb (AdmW.of ha hb hfa hfb hadm) hp hT hd c hc
+
+/-- the hypothesis `PreT` is satisfiable for every permutation (`C04.preT_canonical`) -/
+example : PreT 3 [1, 2, 0] [2] (positions [1, 2, 0] [2])
+    (positions (freeAxes 3 [2]) (permuted [1, 2, 0] (freeAxes 3 (positions [1, 2, 0] [2])))) :=
+  preT_canonical 3 [1, 2, 0] [2] (KoszulP.perm_of_isPerm (by decide)) (by decide) (by decide)
+
+theorem exchP_def (fX fZ nY' nZ' nXY : Nat) (xa xa' : List Nat) :
+    exchP fX fZ nY' nZ' nXY xa xa'
+      = KoszulP.compose
+          (blockP (positions (freeAxes (fX + fZ) xa) (permuted (rotB fX fZ) (freeAxes (fX + fZ) xa')))
+            (freeAxes (fX + fZ) xa).length nY')
+          (rotB nZ' nXY) := rfl
+
+/-- **exchange3.**  Three valid fermionic pieces `X, Y, Z`, bonds `xy ~ yx`, `xz ~ zx`, `yz ~ zy`
+    (weak guards, possibly empty), distinct labels, commutative scalars:
+    `(X·Z)·Y` transposed by `exchP …` is `Eqv` to `(X·Y)·Z`. -/
+theorem exchange3 [AddCommMonoid R] [Mul R] [Neg R] [SignRing R] [AssocLaws R]
+    (hmul : ∀ x y : R, x * y = y * x) (X Y Z : Arr R) (xy xz yx yz zx zy : List Nat)
+    (hX : X.validB = true) (hY : Y.validB = true) (hZ : Z.validB = true)
+    (hfX : X.fermi = true) (hfY : Y.fermi = true) (hfZ : Z.fermi = true)
+    (gXY : tdotAdmissibleCommonB X Y xy yx = true) (gXZ : tdotAdmissibleCommonB X Z xz zx = true)
+    (gYZ : tdotAdmissibleCommonB Y Z yz zy = true)
+    (hnX : (xy ++ xz).Nodup) (hnY : (yx ++ yz).Nodup) (hnZ : (zx ++ zy).Nodup)
+    (hd : (X.oddpos ++ Y.oddpos ++ Z.oddpos).Pairwise (fun x y => x.1 ≠ y.1)) :
+    ∃ XY XZ c1 c : Arr R,
+      tdF X Y xy yx = .ok XY
+      ∧ tdF XY Z (Assoc2P.axesAB X.ndim Y.ndim xy xz yx yz) (zx ++ zy) = .ok c1
+      ∧ tdF X Z xz zx = .ok XZ
+      ∧ tdF XZ Y (Assoc2P.axesAB X.ndim Z.ndim xz xy zx zy) (yx ++ yz) = .ok c
+      ∧ c1.validB = true ∧ c.validB = true
+      ∧ Arr.isPerm (exchP (freeAxes X.ndim xz).length (freeAxes Z.ndim zx).length
+            (freeAxes Y.ndim (yz ++ yx)).length (freeAxes Z.ndim (zx ++ zy)).length
+            (freeAxes XY.ndim (Assoc2P.axesAB X.ndim Y.ndim xy xz yx yz)).length
+            ((positions (freeAxes Z.ndim zx) zy).map ((freeAxes X.ndim xz).length + ·)
+              ++ positions (freeAxes X.ndim xz) xy)
+            (Assoc2P.axesAB Z.ndim X.ndim zx zy xz xy)) c.ndim = true
+      ∧ Eqv (c.transposeF (exchP (freeAxes X.ndim xz).length (freeAxes Z.ndim zx).length
+            (freeAxes Y.ndim (yz ++ yx)).length (freeAxes Z.ndim (zx ++ zy)).length
+            (freeAxes XY.ndim (Assoc2P.axesAB X.ndim Y.ndim xy xz yx yz)).length
+            ((positions (freeAxes Z.ndim zx) zy).map ((freeAxes X.ndim xz).length + ·)
+              ++ positions (freeAxes X.ndim xz) xy)
+            (Assoc2P.axesAB Z.ndim X.ndim zx zy xz xy))) c1 := by
+  have WXY := AdmW.of hX hY hfX hfY gXY
+  have WXZ := AdmW.of hX hZ hfX hfZ gXZ
+  have WYZ := AdmW.of hY hZ hfY hfZ gYZ
+  have lt2 : ∀ {n : Nat} {p q : List Nat}, (∀ i ∈ p, i < n) → (∀ i ∈ q, i < n) →
+      ∀ i ∈ p ++ q, i < n := by
+    intro n p q hp hq i hi
+    rcases List.mem_append.mp hi with h | h
+    · exact hp i h
+    · exact hq i h
+  exact exchange hmul X Y Z xy xz yx yz zx zy WXY WXZ WYZ (Mid.of hnX (lt2 WXY.ltA WXZ.ltA))
+    (Mid.of hnY (lt2 WXY.ltB WYZ.ltA)) (Mid.of hnZ (lt2 WXZ.ltB WYZ.ltB)) hd
+
+/-! non-vacuity of `exchange3`: the chain `cD – gA – cB` (`X = gA`, `Y = cB`, `Z = cD`; no bond `Y–Z`) -/
+
+open SymmModel.C03 in
+example : gA.validB = true ∧ cB.validB = true ∧ cD.validB = true
+    ∧ gA.fermi = true ∧ cB.fermi = true ∧ cD.fermi = true
+    ∧ tdotAdmissibleCommonB gA cB [2] [0] = true ∧ tdotAdmissibleCommonB gA cD [0] [1] = true
+    ∧ tdotAdmissibleCommonB cB cD [] [] = true
+    ∧ ([2] ++ [0] : List Nat).Nodup ∧ ([0] ++ [] : List Nat).Nodup ∧ ([1] ++ [] : List Nat).Nodup
+    ∧ (gA.oddpos ++ cB.oddpos ++ cD.oddpos).Pairwise (fun x y => x.1 ≠ y.1) := by
+  refine ⟨by decide +kernel, by decide +kernel, by decide +kernel, by decide +kernel, by decide +kernel,
+    by decide +kernel, by decide +kernel, by decide +kernel, by decide +kernel, by decide, by decide,
+    by decide, by decide +kernel⟩
+
+open SymmModel.C03 in
+/-- `(gA·cB)·cD`, legs `k, k', j, m'` -/
+def exXYZ : Arr Int :=
+  resOf (tdF (resOf (tdF gA cB [2] [0])) cD (Assoc2P.axesAB 3 3 [2] [0] [0] []) ([1] ++ []))
+open SymmModel.C03 in
+/-- `(gA·cD)·cB`, legs `k, m', k', j` -/
+def exXZY : Arr Int :=
+  resOf (tdF (resOf (tdF gA cD [0] [1])) cB (Assoc2P.axesAB 3 2 [0] [2] [1] []) ([0] ++ []))
+
+/-- on this instance the permutation of `exchange3` is the block move `[k, m', k', j] → [k, k', j, m']`;
+    the two results have the same labels; their values differ by the Koszul sign in the two
+    sectors where `m'` and `(k', j)` are both odd, and `transposeF` restores equality -/
+example :
+    exchP 2 1 2 1 3 [1] [2] = [0, 2, 3, 1] ∧ exXYZ.oddpos = exXZY.oddpos
+    ∧ exXYZ.sectors.map (fun s => (exXYZ.elem s [0,0,0,0], (exXZY.transposeF [0,2,3,1]).elem s [0,0,0,0],
+          exXZY.elem (permuted s [0,3,1,2]) [0,0,0,0]))
+      = [(8, 8, 8), (20, 20, 20), (2, 2, -2), (5, 5, -5), (9, 9, 9), (38, 38, 38)] := by
+  decide +kernel
+
+/-! ### all orderings of four tensors -/
+
+theorem net4_defs [Zero R] [Add R] [Mul R] [Neg R] (N : Net4 R) (i j k l : Fin 4) :
+    N.r1 i j k l = routeS1 (N.T i) (N.T j) (N.T k) (N.T l) (N.b i j) (N.b i k) (N.b i l) (N.b j i)
+      (N.b j k) (N.b j l) (N.b k i) (N.b k j) (N.b k l) (N.b l i) (N.b l j) (N.b l k)
+      false false false := rfl
+
+theorem net4_ok_def [AddCommMonoid R] [Mul R] [Neg R] [SignRing R] (N : Net4 R) :
+    N.OK ↔ ((∀ i, (N.T i).validB = true) ∧ (∀ i, (N.T i).fermi = true)
+      ∧ (∀ i j, i ≠ j → tdotAdmissibleCommonB (N.T i) (N.T j) (N.b i j) (N.b j i) = true)
+      ∧ (∀ i j k l : Fin 4, [i, j, k, l].Nodup → (N.b i j ++ N.b i k ++ N.b i l).Nodup)
+      ∧ (∀ i j k l : Fin 4, [i, j, k, l].Nodup →
+          ((N.T i).oddpos ++ (N.T j).oddpos ++ (N.T k).oddpos ++ (N.T l).oddpos).Pairwise
+            (fun x y => x.1 ≠ y.1))) :=
+  ⟨fun h => ⟨h.valid, h.fermi, h.adm, h.nodup, h.labels⟩, fun ⟨a, b, c, d, e⟩ => ⟨a, b, c, d, e⟩⟩
+
+/-- **net4_all_orders.**  Every ordering of the four tensors: the left-nested contraction is a
+    fermionic transpose of the one in the order `0, 1, 2, 3`. -/
+theorem net4_all_orders [AddCommMonoid R] [Mul R] [Neg R] [SignRing R] [AssocLaws R]
+    (hmul : ∀ x y : R, x * y = y * x) (N : Net4 R) (hN : N.OK) (i j k l : Fin 4)
+    (hn : [i, j, k, l].Nodup) :
+    ∃ T T0 : Arr R, N.r1 i j k l = .ok T ∧ N.r1 0 1 2 3 = .ok T0 ∧ T.validB = true ∧ T.fermi = true
+      ∧ T0.validB = true ∧ TEq T T0 :=
+  all_orders hmul hN i j k l hn
+
+/-- **net4_every_route.**  Any ordering, any of the five bracketings, any assignment of operand-order
+    flags: a fermionic transpose of the reference contraction `((T₀·T₁)·T₂)·T₃`. -/
+theorem net4_every_route [AddCommMonoid R] [Mul R] [Neg R] [SignRing R] [AssocLaws R]
+    (hmul : ∀ x y : R, x * y = y * x) (N : Net4 R) (hN : N.OK) (i j k l : Fin 4)
+    (hn : [i, j, k, l].Nodup) (f : Fin 15 → Bool) :
+    ∃ T0 U1 U2 U3 U4 U5 : Arr R, N.r1 0 1 2 3 = .ok T0
+      ∧ routeS1 (N.T i) (N.T j) (N.T k) (N.T l) (N.b i j) (N.b i k) (N.b i l) (N.b j i) (N.b j k) (N.b j l)
+          (N.b k i) (N.b k j) (N.b k l) (N.b l i) (N.b l j) (N.b l k) (f 0) (f 1) (f 2) = .ok U1
+      ∧ routeS2 (N.T i) (N.T j) (N.T k) (N.T l) (N.b i j) (N.b i k) (N.b i l) (N.b j i) (N.b j k) (N.b j l)
+          (N.b k i) (N.b k j) (N.b k l) (N.b l i) (N.b l j) (N.b l k) (f 3) (f 4) (f 5) = .ok U2
+      ∧ routeS3 (N.T i) (N.T j) (N.T k) (N.T l) (N.b i j) (N.b i k) (N.b i l) (N.b j i) (N.b j k) (N.b j l)
+          (N.b k i) (N.b k j) (N.b k l) (N.b l i) (N.b l j) (N.b l k) (f 6) (f 7) (f 8) = .ok U3
+      ∧ routeS4 (N.T i) (N.T j) (N.T k) (N.T l) (N.b i j) (N.b i k) (N.b i l) (N.b j i) (N.b j k) (N.b j l)
+          (N.b k i) (N.b k j) (N.b k l) (N.b l i) (N.b l j) (N.b l k) (f 9) (f 10) (f 11) = .ok U4
+      ∧ routeS5 (N.T i) (N.T j) (N.T k) (N.T l) (N.b i j) (N.b i k) (N.b i l) (N.b j i) (N.b j k) (N.b j l)
+          (N.b k i) (N.b k j) (N.b k l) (N.b l i) (N.b l j) (N.b l k) (f 12) (f 13) (f 14) = .ok U5
+      ∧ TEq U1 T0 ∧ TEq U2 T0 ∧ TEq U3 T0 ∧ TEq U4 T0 ∧ TEq U5 T0 := by
+  obtain ⟨T, T0, e, e0, v, fT, v0, t⟩ := all_orders hmul hN i j k l hn
+  have H := hN.k4h hn
+  obtain ⟨T1, e1, v1, hall⟩ := k4_flagged hmul (N.T i) (N.T j) (N.T k) (N.T l) (N.b i j) (N.b i k)
+    (N.b i l) (N.b j i) (N.b j k) (N.b j l) (N.b k i) (N.b k j) (N.b k l) (N.b l i) (N.b l j) (N.b l k)
+    H.WAB H.WAC H.WAD H.WBC H.WBD H.WCD H.hnA H.hnB H.hnC H.hnD H.hd
+  have e' : N.r1 i j k l = .ok T1 := e1
+  rw [e] at e'
+  obtain rfl := Except.ok.inj e'
+  obtain ⟨U1, U2, U3, U4, U5, a1, a2, a3, a4, a5, q1, q2, q3, q4, q5, w1, w2, w3, w4, w5⟩ := hall f
+  have key : ∀ U : Arr R, Eqv U T → U.validB = true → TEq U T0 := fun U q w =>
+    TEq.trans (TEq.of_eqv q w (by rw [q.fermi]; exact fT)) t w (by rw [q.fermi]; exact fT) v
+  exact ⟨T0, U1, U2, U3, U4, U5, e0, a1, a2, a3, a4, a5, key U1 q1 w1, key U2 q2 w2, key U3 q3 w3,
+    key U4 q4 w4, key U5 q5 w5⟩
+
+/-- `U` is a valid fermionic array of which the reference contraction `((T₀·T₁)·T₂)·T₃` is a
+    fermionic transpose -/
+def Ref [AddCommMonoid R] [Mul R] [Neg R] (N : Net4 R) (U : Arr R) : Prop :=
+  ∃ T0 : Arr R, N.r1 0 1 2 3 = .ok T0 ∧ U.validB = true ∧ U.fermi = true ∧ TEq U T0
+
+theorem ref_def [AddCommMonoid R] [Mul R] [Neg R] (N : Net4 R) (U : Arr R) :
+    Ref N U ↔ ∃ T0 : Arr R, N.r1 0 1 2 3 = .ok T0 ∧ U.validB = true ∧ U.fermi = true ∧ TEq U T0 :=
+  Iff.rfl
+
+/-- `net4_every_route` with validity: every result is a `Ref` -/
+theorem net4_every_route_ref [AddCommMonoid R] [Mul R] [Neg R] [SignRing R] [AssocLaws R]
+    (hmul : ∀ x y : R, x * y = y * x) (N : Net4 R) (hN : N.OK) (i j k l : Fin 4)
+    (hn : [i, j, k, l].Nodup) (f : Fin 15 → Bool) :
+    ∃ U1 U2 U3 U4 U5 : Arr R,
+      routeS1 (N.T i) (N.T j) (N.T k) (N.T l) (N.b i j) (N.b i k) (N.b i l) (N.b j i) (N.b j k) (N.b j l)
+          (N.b k i) (N.b k j) (N.b k l) (N.b l i) (N.b l j) (N.b l k) (f 0) (f 1) (f 2) = .ok U1
+      ∧ routeS2 (N.T i) (N.T j) (N.T k) (N.T l) (N.b i j) (N.b i k) (N.b i l) (N.b j i) (N.b j k) (N.b j l)
+          (N.b k i) (N.b k j) (N.b k l) (N.b l i) (N.b l j) (N.b l k) (f 3) (f 4) (f 5) = .ok U2
+      ∧ routeS3 (N.T i) (N.T j) (N.T k) (N.T l) (N.b i j) (N.b i k) (N.b i l) (N.b j i) (N.b j k) (N.b j l)
+          (N.b k i) (N.b k j) (N.b k l) (N.b l i) (N.b l j) (N.b l k) (f 6) (f 7) (f 8) = .ok U3
+      ∧ routeS4 (N.T i) (N.T j) (N.T k) (N.T l) (N.b i j) (N.b i k) (N.b i l) (N.b j i) (N.b j k) (N.b j l)
+          (N.b k i) (N.b k j) (N.b k l) (N.b l i) (N.b l j) (N.b l k) (f 9) (f 10) (f 11) = .ok U4
+      ∧ routeS5 (N.T i) (N.T j) (N.T k) (N.T l) (N.b i j) (N.b i k) (N.b i l) (N.b j i) (N.b j k) (N.b j l)
+          (N.b k i) (N.b k j) (N.b k l) (N.b l i) (N.b l j) (N.b l k) (f 12) (f 13) (f 14) = .ok U5
+      ∧ Ref N U1 ∧ Ref N U2 ∧ Ref N U3 ∧ Ref N U4 ∧ Ref N U5 := by
+  obtain ⟨T, T0, e, e0, v, fT, v0, t⟩ := all_orders hmul hN i j k l hn
+  have H := hN.k4h hn
+  obtain ⟨T1, e1, v1, hall⟩ := k4_flagged hmul (N.T i) (N.T j) (N.T k) (N.T l) (N.b i j) (N.b i k)
+    (N.b i l) (N.b j i) (N.b j k) (N.b j l) (N.b k i) (N.b k j) (N.b k l) (N.b l i) (N.b l j) (N.b l k)
+    H.WAB H.WAC H.WAD H.WBC H.WBD H.WCD H.hnA H.hnB H.hnC H.hnD H.hd
+  have e' : N.r1 i j k l = .ok T1 := e1
+  rw [e] at e'
+  obtain rfl := Except.ok.inj e'
+  obtain ⟨U1, U2, U3, U4, U5, a1, a2, a3, a4, a5, q1, q2, q3, q4, q5, w1, w2, w3, w4, w5⟩ := hall f
+  have key : ∀ U : Arr R, Eqv U T → U.validB = true → Ref N U := fun U q w =>
+    ⟨T0, e0, w, by rw [q.fermi]; exact fT,
+      TEq.trans (TEq.of_eqv q w (by rw [q.fermi]; exact fT)) t w (by rw [q.fermi]; exact fT) v⟩
+  exact ⟨U1, U2, U3, U4, U5, a1, a2, a3, a4, a5, key U1 q1 w1, key U2 q2 w2, key U3 q3 w3,
+    key U4 q4 w4, key U5 q5 w5⟩
+
+/-- **net4_routes_agree.**  Two results of ANY two routes (orderings, bracketings, operand orders)
+    of the same network, each brought to the leg order of the reference contraction by a fermionic
+    transpose, are equivalent: same `to_dense()`, labels, charge, index tables. -/
+theorem net4_routes_agree [AddCommMonoid R] [Mul R] [Neg R] [SignRing R] (N : Net4 R) (U U' : Arr R)
+    (h : Ref N U) (h' : Ref N U') :
+    ∃ P P', Arr.isPerm P U.ndim = true ∧ Arr.isPerm P' U'.ndim = true
+      ∧ Eqv (U.transposeF P) (U'.transposeF P')
+      ∧ (U.transposeF P).toDenseF = (U'.transposeF P').toDenseF
+      ∧ U.oddpos = U'.oddpos ∧ U.charge = U'.charge
+      ∧ permuted U.indices P = permuted U'.indices P' := by
+  obtain ⟨T0, e0, v, f, P, hP, q⟩ := h
+  obtain ⟨T0', e0', v', f', P', hP', q'⟩ := h'
+  rw [e0] at e0'
+  obtain rfl := Except.ok.inj e0'
+  have TT := transOf_transposeF U P v f hP
+  have TT' := transOf_transposeF U' P' v' f' hP'
+  have hE := q.trans q'.symm
+  exact ⟨P, P', hP, hP', hE, hE.toDenseF (transposeF_validB U P v f hP),
+    q.oddpos.trans q'.oddpos.symm, q.charge.trans q'.charge.symm,
+    by rw [← TT.indices, ← TT'.indices]; exact hE.indices⟩
+
+/-! ### non-vacuity: the square as a `Net4` -/
+
+open SymmModel.C03 in
+/-- the square `gA – cB – cC – cD – gA` -/
+def exNet : Net4 Int where
+  T := fun i => match i with
+    | 0 => gA
+    | 1 => cB
+    | 2 => cC
+    | 3 => cD
+  b := fun i j => match i, j with
+    | 0, 1 => [2]
+    | 1, 0 => [0]
+    | 1, 2 => [2]
+    | 2, 1 => [0]
+    | 2, 3 => [1]
+    | 3, 2 => [0]
+    | 0, 3 => [0]
+    | 3, 0 => [1]
+    | _, _ => []
+
+theorem exNet_ok : exNet.OK ∧ (∀ x y : Int, x * y = y * x) := by
+  have hl : ∀ i j k l : Fin 4, [i, j, k, l].Nodup →
+      ((exNet.T i).oddpos ++ (exNet.T j).oddpos ++ (exNet.T k).oddpos ++ (exNet.T l).oddpos).Pairwise
+        (fun x y => x.1 ≠ y.1) := by decide +kernel
+  exact ⟨⟨by decide +kernel, by decide +kernel, by decide +kernel, by decide +kernel, hl⟩,
+    Int.mul_comm⟩
+
+/-- sanity instance: the left-nested contraction of the square in six different orders (same
+    labels; rank 2; one sector; the value up to the sign of the transposition) -/
+example :
+    ([exNet.r1 0 1 2 3, exNet.r1 0 2 1 3, exNet.r1 3 2 1 0, exNet.r1 1 3 0 2, exNet.r1 2 0 3 1,
+      exNet.r1 0 3 2 1].map
+      (fun (t : Except Err (Arr Int)) => (C04.labelsOf t, (resOf t).indices.length,
+        (resOf t).sectors.length, elemOf t [(0,0),(0,0)] [0,0])))
+      = List.replicate 6 ([(5, true), (1, false), (3, false), (7, false)], 2, 1, some (-140)) := by
   decide +kernel
 
 end SymmModel.C04
